@@ -33,7 +33,6 @@ type Inst struct {
 	// partial map forest: the slots it was asked to remember and has not
 	// deleted since (harness-side bookkeeping of the requests it made)
 	cached      map[int]bool
-	cachedStack []map[int]bool
 	stumpStack  []utreexo.Stump
 }
 
@@ -329,10 +328,6 @@ func (w *World) applyMod(st *Step) {
 					err = fmt.Errorf("Verify(remember): %v", err)
 					return
 				}
-				in.cachedStack = append(in.cachedStack, copyCached(in.cached))
-				for _, s := range st.D {
-					in.cachedStack[len(in.cachedStack)-1][s] = true
-				}
 				leaves := make([]utreexo.Leaf, len(ba.adds))
 				for i, a := range ba.adds {
 					rem := w.remFlag(int(w.n) + i)
@@ -459,8 +454,17 @@ func (w *World) applyUndo(st *Step) {
 		})
 		g.end()
 		if in.Kind == KMapPart {
-			in.cached = in.cachedStack[len(in.cachedStack)-1]
-			in.cachedStack = in.cachedStack[:len(in.cachedStack)-1]
+			// the leaves the undone block added are gone; the leaves it deleted
+			// were cached when they were deleted and come back cached; whatever
+			// was remembered since stays remembered
+			for s := range in.cached {
+				if uint64(s) >= prevN {
+					delete(in.cached, s)
+				}
+			}
+			for _, s := range st.D {
+				in.cached[s] = true
+			}
 		}
 		if pan != "" {
 			w.fail([]string{"C06"}, in, "panic", "Undo panicked: "+pan, nil, nil)
